@@ -5,3 +5,4 @@ import Norad.Props.C17
 #print axioms C17.partial_eq_restricted_full
 #print axioms C17.partial_succeeds_if_full_does
 #print axioms C17.unrequested_files_not_read
+#print axioms C17.source_switches_match_model
